@@ -38,7 +38,7 @@ Fixpoint dnorm (t : ty) : ty :=
   end.
 Definition dnorm_field (f : field) : field := {| fname := fname f; fty := dnorm (fty f); fdefault := fdefault f |}.
 Definition dnorm_cd (cd : classdef) : classdef :=
-  {| cflavour := cflavour cd; cfields := map dnorm_field (cfields cd) |}.
+  {| cflavour := cflavour cd; cfields := map dnorm_field (cfields cd); crequired := crequired cd |}.
 Definition dnorm_env (E : env) : env := fun c =>
   match E c with
   | Some (NClass cd) => Some (NClass (dnorm_cd cd))
@@ -99,8 +99,11 @@ Proof. unfold field_ty. cbn [dnorm_cd cfields]. induction (cfields cd) as [|fd l
   cbn [map find dnorm_field fname]. destruct (Nat.eqb (fname fd) f); [reflexivity|exact IH]. Qed.
 Lemma fill_fields_dnorm l kw : fill_fields (map dnorm_field l) kw = fill_fields l kw.
 Proof. induction l as [|f r IH]; [reflexivity|]. cbn [map fill_fields dnorm_field fname fdefault]. rewrite IH. reflexivity. Qed.
+Lemma forallb_map_eq {A B} (f : B -> bool) (g : A -> B) l : forallb f (map g l) = forallb (fun x => f (g x)) l.
+Proof. induction l as [|x r IH]; [reflexivity|]. cbn [map forallb]. rewrite IH. reflexivity. Qed.
 Lemma construct_class_dnorm c cd kw : construct_class c (dnorm_cd cd) kw = construct_class c cd kw.
-Proof. unfold construct_class. cbn [dnorm_cd cflavour cfields]. rewrite fill_fields_dnorm. reflexivity. Qed.
+Proof. unfold construct_class. cbn [dnorm_cd cflavour cfields crequired]. rewrite fill_fields_dnorm.
+  rewrite forallb_map_eq. reflexivity. Qed.
 Lemma field_ok cd f ft : forallb (fun fd => ok_ty (fty fd)) (cfields cd) = true -> field_ty cd f = Some ft -> ok_ty ft = true.
 Proof. unfold field_ty. intros H. rewrite forallb_forall in H.
   destruct (find (fun fd => Nat.eqb (fname fd) f) (cfields cd)) as [fd|] eqn:Ef; [|discriminate].
